@@ -9,7 +9,7 @@ import X86Model.Driver.Gdt
 
 open X86 X86.Driver
 
-def allHandlers : List Handler := [handleC05, handleC08, handleC15]
+def allHandlers : List Handler := [handleC05, handleC08, handleC15, handleC14]
 
 def dispatch : Handler := fun cfg op a impl =>
   allHandlers.firstM (fun h => h cfg op a impl)
